@@ -57,6 +57,8 @@ def run(pid, tier, seed):
             why = "hooks %s, specification demands %s" % (e["hooks"], want["chain"])
         elif e["entries"] != 1:
             why = "accept entered %d hooks" % e["entries"]
+        elif e["handed_other_object"] != 0:
+            why = "%d of the hooks %s were handed another object than the node accept() was called on" % (e["handed_other_object"], e["hooks"])
         elif e["views"] != [e["cat"]]:
             why = "view<K> yields the node for K in %s" % e["views"]
         elif e["sink"] != want["sink"]:
